@@ -1,5 +1,6 @@
 import FranzVerif.Proof.C06Walk
 import FranzVerif.Proof.C06
+import FranzVerif.Proof.C06Below
 /-! C06 — membership in the reference decoder's output, the byte-level fact behind `RepBatch.raw`, and the concrete
 log used by the non-vacuity examples of `Props/C06.lean`. Core Lean only. -/
 namespace Proof.C06
@@ -31,6 +32,39 @@ theorem batchRecords_take_or_drop {q : Req} {L : List LBatch} {b : LBatch} {r : 
   rcases hx with hx | hx
   · left; rw [mem_batchRecords]; exact ⟨hk, x, by simpa using hx, hq, rfl⟩
   · right; exact ⟨x, hx, hq, rfl⟩
+
+/-! ## restricting the hypotheses from the log to the part the response holds -/
+
+theorem wfLog_left {whole rest : List LBatch} (h : WfLog (whole ++ rest)) : WfLog whole :=
+  ⟨fun b hb => h.batch b (by simp [hb]), (List.pairwise_append.mp h.ord).1⟩
+
+theorem openAt_left {whole rest : List LBatch} (hwf : WfLog (whole ++ rest)) {m : LBatch} (hm : m ∈ whole) (a : Int × Int) :
+    openAt whole m a = openAt (whole ++ rest) m a := by
+  obtain ⟨P, S, hPS⟩ := List.append_of_mem hm
+  rw [openAt_eq hPS (wfLog_left hwf) a,
+    openAt_eq (L := whole ++ rest) (P := P) (S := S ++ rest) (by rw [hPS]; simp) hwf a]
+
+theorem abortedConsistent_left {o : Opts} {A : List (Int × Int)} {whole rest : List LBatch} (hwf : WfLog (whole ++ rest))
+    (h : AbortedConsistent o A (whole ++ rest)) : AbortedConsistent o A whole := by
+  constructor
+  · intro m hm hmark
+    have := h.sequential m (by simp [hm]) hmark
+    have e : (effA o A).filter (openAt whole m) = (effA o A).filter (openAt (whole ++ rest) m) :=
+      List.filter_congr (fun a _ => openAt_left hwf hm a)
+    rw [e]; exact this
+  · intro m hm hmark hlt a ha hpid
+    exact h.overlaps m (by simp [hm]) hmark hlt a ha hpid
+
+theorem process_below {o : Opts} {kerr : Bool} {A : List (Int × Int)} {items : List Item} {recs : List Rec} {next : Int} {err : Option Err}
+    (h : process o kerr A items = .done recs next err) : ∀ r ∈ recs, r.offset < next := by
+  unfold process at h
+  simp only at h
+  split at h
+  · simp at h
+  · rename_i s hw
+    simp only [Res.done.injEq] at h
+    obtain ⟨rfl, rfl, _⟩ := h
+    exact walk_below o _ _ _ hw (by intro r hr; simp at hr)
 
 /-! ## byte level: the hypothesis `RepBatch.raw` holds for every batch the framing walk decodes -/
 
